@@ -274,6 +274,18 @@ func propC08(o *out, r *rng, thorough bool) {
 		"010m", "0100ms", "1m08s", "08s", "09h", "007d", "0x10s", "0b1s", "0o7s", "1_0s", "1µ2m", "5µ1m", "7µ1m", "1µm", "µm", "1µ1µ1m", "3µ4ms", "1e3s", "+5m"} {
 		c08Parse(o, w, "witness")
 	}
+	// lengths at which a fixed buffer would end: digits (leading zeros keep the value small), components, and both
+	for _, n := range []int{15, 16, 17, 18, 19, 20, 21, 31, 32, 33, 63, 64, 65, 127, 128, 129, 255, 256, 257, 1023, 1024, 1025} {
+		z := strings.Repeat("0", n)
+		for _, u := range []string{"ns", "u", "µ", "ms", "s", "m", "h", "d", "w"} {
+			c08Parse(o, z+"7"+u, "length")
+			c08Parse(o, "-"+z+u, "length")
+			c08Parse(o, "1"+u+z+"2ns", "length")
+		}
+		c08Parse(o, strings.Repeat("1ns", n), "length")
+		c08Parse(o, strings.Repeat("1h1ns", n), "length")
+		c08Parse(o, strings.Repeat("9", n)+"ns", "length")
+	}
 	n := 6000
 	if thorough {
 		n = 400000
